@@ -367,7 +367,7 @@ impl Sched {
                             } else {
                                 "panic".to_string()
                             };
-                            sched.record(json!({"k":"panic","t":t,"x":msg}));
+                            sched.record(json!({"k":"panic","t":t,"fn":"","fld":"","o":"","a":0,"b":0,"r":0,"ok":true,"obj":0,"x":msg}));
                         }
                     }
                 }
